@@ -259,19 +259,19 @@ func ifaceHasMethodObj(it *types.Interface, m *types.Func) bool {
 var pureCallees = map[string]bool{
 	"(*services/keepstore.UnixVolume).blockPath": true,
 	"(*services/keepstore.UnixVolume).blockDir":  true,
-	"(*os.File).Name":                            true,
-	"(*os.File).Fd":                              true,
-	"path/filepath.Join":                         true,
-	"fmt.Sprintf":                                true,
-	"builtin.len":                                true,
-	"(os.FileInfo).Name":                         true,
-	"(io/fs.FileInfo).Name":                      true,
-	"(os.FileInfo).ModTime":                      true,
-	"(io/fs.FileInfo).ModTime":                   true,
-	"(time.Time).UnixNano":                       true,
-	"time.Since":                                 true,
-	"(sdk/go/arvados.Duration).Duration":         true,
-	"strings.HasPrefix":                          true,
+	"(*os.File).Name":                    true,
+	"(*os.File).Fd":                      true,
+	"path/filepath.Join":                 true,
+	"fmt.Sprintf":                        true,
+	"builtin.len":                        true,
+	"(os.FileInfo).Name":                 true,
+	"(io/fs.FileInfo).Name":              true,
+	"(os.FileInfo).ModTime":              true,
+	"(io/fs.FileInfo).ModTime":           true,
+	"(time.Time).UnixNano":               true,
+	"time.Since":                         true,
+	"(sdk/go/arvados.Duration).Duration": true,
+	"strings.HasPrefix":                  true,
 }
 
 func Canon(v ssa.Value) string {
@@ -319,6 +319,9 @@ func Canon(v ssa.Value) string {
 			}
 			if g, ok := x.X.(*ssa.Global); ok {
 				return "global:" + shortName(g.String())
+			}
+			if fv, ok := x.X.(*ssa.FreeVar); ok {
+				return "free:" + fv.Name()
 			}
 			if ia, ok := x.X.(*ssa.IndexAddr); ok {
 				return Canon(ia.X) + "[" + Canon(ia.Index) + "]"
@@ -504,4 +507,127 @@ func rootBase(v ssa.Value) ssa.Value {
 			return v
 		}
 	}
+}
+
+// ---------------------------------------------------------------------------
+// SYM: symbolic description of a keyed hash computation
+
+// HMACInfo describes `hex(hmac.New(H, key) ; writes... ; Sum(nil))`.
+type HMACInfo struct {
+	HashCtor string      // e.g. "crypto/sha1.New"
+	Key      ssa.Value   // argument of []byte(key) conversion, stripped
+	Writes   []ssa.Value // values written, in order (string or []byte, stripped of conversions)
+	NewCall  *ssa.Call
+}
+
+// HexHMACOf: v == fmt.Sprintf("%x", h.Sum(nil)) with h := hmac.New(ctor, key)
+// and only WriteString/Write calls on h in between.
+func HexHMACOf(v ssa.Value) (*HMACInfo, bool) {
+	f, args, ok := SprintfCall(v)
+	if !ok || f != "%x" || len(args) != 1 || args[0] == nil {
+		return nil, false
+	}
+	sum, ok := Strip(args[0]).(*ssa.Call)
+	if !ok || bareName(CalleeName(sum.Common())) != "Sum" || !sum.Common().IsInvoke() {
+		return nil, false
+	}
+	if !IsNilConst(sum.Common().Args[0]) {
+		return nil, false
+	}
+	h, ok := Resolve1(sum.Common().Value).(*ssa.Call)
+	if !ok || CalleeName(h.Common()) != "crypto/hmac.New" {
+		return nil, false
+	}
+	info := &HMACInfo{NewCall: h}
+	switch c := Strip(h.Call.Args[0]).(type) {
+	case *ssa.Function:
+		info.HashCtor = fnName(c)
+	default:
+		return nil, false
+	}
+	info.Key = Strip(h.Call.Args[1])
+	// every use of h between New and Sum
+	type use struct {
+		in  ssa.Instruction
+		val ssa.Value
+	}
+	var uses []use
+	bad := false
+	var visit func(x ssa.Value)
+	visit = func(x ssa.Value) {
+		for _, ref := range *x.Referrers() {
+			switch u := ref.(type) {
+			case *ssa.MakeInterface:
+				visit(u)
+			case *ssa.ChangeInterface:
+				visit(u)
+			case *ssa.DebugRef:
+			case *ssa.Call:
+				if u == sum {
+					continue
+				}
+				n := CalleeName(u.Common())
+				switch {
+				case n == "io.WriteString" && len(u.Call.Args) == 2:
+					uses = append(uses, use{u, Strip(u.Call.Args[1])})
+				case u.Common().IsInvoke() && bareName(n) == "Write":
+					uses = append(uses, use{u, Strip(u.Common().Args[0])})
+				default:
+					bad = true
+				}
+			default:
+				bad = true
+			}
+		}
+	}
+	visit(h)
+	if bad {
+		return nil, false
+	}
+	// order: all in dominance order before sum
+	for i := 0; i < len(uses); i++ {
+		for j := i + 1; j < len(uses); j++ {
+			if Before(uses[j].in, uses[i].in) {
+				uses[i], uses[j] = uses[j], uses[i]
+			}
+		}
+	}
+	for i, u := range uses {
+		if !Before(u.in, sum) || !Before(h, u.in) {
+			return nil, false
+		}
+		if i > 0 && !Before(uses[i-1].in, u.in) {
+			return nil, false
+		}
+		info.Writes = append(info.Writes, u.val)
+	}
+	return info, true
+}
+
+// ConcatParts flattens a string concatenation tree (BinOp ADD) into its leaves.
+func ConcatParts(v ssa.Value) []ssa.Value {
+	v = Resolve1(v)
+	if b, ok := v.(*ssa.BinOp); ok && b.Op == token.ADD {
+		return append(ConcatParts(b.X), ConcatParts(b.Y)...)
+	}
+	return []ssa.Value{v}
+}
+
+// freeVarBinding: the value bound to free variable fv at the (unique) MakeClosure of its function.
+func freeVarBinding(fv *ssa.FreeVar) ssa.Value {
+	fn := fv.Parent()
+	if fn.Parent() == nil {
+		return nil
+	}
+	var out ssa.Value
+	allInstrs(fn.Parent(), func(in ssa.Instruction) {
+		if mc, ok := in.(*ssa.MakeClosure); ok && mc.Fn == fn {
+			for i, f := range fn.FreeVars {
+				if f == fv {
+					out = mc.Bindings[i]
+				}
+			}
+		}
+	})
+	return out
 }
